@@ -157,6 +157,10 @@ pub fn create_raw_dict_from_source<R: io::Read, W: io::Write>(
     );
     vprintln!("create_dict: creating {sample_size} byte sample of collection");
     let collection_sample = create_sample(&mut buffered_source, sample_size);
+    if collection_sample.is_empty() {
+        // Nothing to build a dictionary from
+        return;
+    }
 
     // A collection of segments to be used in the final dictionary.
     //
